@@ -508,6 +508,12 @@ func Main(r *core.Run) {
 				if !quick {
 					maxS = 3
 				}
+				if u.Err != "" {
+					// the unrestricted walk stopped at a failed load: skipping a block before that point lets the
+					// walk go on to nodes (and loads) the unrestricted sequence never reached, so "a subsequence
+					// of the unrestricted walk" has nothing to say about them
+					dl = nil
+				}
 				for k := 1; k <= maxS && k <= len(dl); k++ {
 					for _, sub := range ref.Subsets(len(dl), k) {
 						var sk []string
